@@ -81,7 +81,9 @@ INLINE_MODELS = [
     "nodes: the abstract edge interface seen by node bodies (reserve_put/reserve_get return a fresh token of that edge; "
     "put/get/cancel consume a granted own token; can_put/can_get answer from a per-segment oracle and agree with a reservation "
     "issued in the same segment): proved for Buffer and Fleet by the edges library (C11), assumed for the conveyor edges",
-    "nodes: Item(...) / Pallet(...) constructors: a fresh object with flow_item_type set and all timestamps None",
+    "nodes: the inline model of Item(...) / Pallet(...) used by the node bodies (a fresh object, flow_item_type set, time stamps "
+    "None) is the postcondition of the constructor contracts, which are verified units (nodes:Item.__init__, "
+    "nodes:Pallet.__init__, nodes:BaseFlowItem.__init__); that the inline model and those contracts say the same is by inspection",
     "SimPy: Environment, Event, Timeout, AnyOf, Process, Interrupt, Resource, Store.__init__ (K-contracts, see trusted_base)",
 ]
 
